@@ -220,7 +220,7 @@ func (caller systemRunCaller) Call(s *slip.Scope, args slip.List, depth int) (re
 	var op slip.Object
 	for _, v := range iot {
 		var list slip.List
-		if list, ok = v.(slip.List); ok && 1 < len(list) && list[0] == args[0] {
+		if list, ok = v.(slip.List); ok && 1 < len(list) && slip.ObjectEqual(list[0], args[0]) {
 			op = list[1]
 			break
 		}
